@@ -1,13 +1,18 @@
 import SF.Lemmas.Sma
+import SF.Lemmas.Cum
+import SF.Lemmas.MinMax
+import SF.Lemmas.Welford
 /-
   C02 — Window statistics equal their definition over exactly the last N values.
-  Each theorem: for every window length N ≥ 1 and every finite history `xs` (any length, any values), running the
-  model's state machine over `xs` does not panic and then reports exactly `Spec.<view> N xs`, a function of
-  `lastN N xs` only — no older value contributes, no value of the window is missed.  Scalars: any linearly
-  ordered field ("real arithmetic").
+  Each theorem: for every window length N ≥ 1 and every finite history `xs` (any length, any values: ties, zeros,
+  negatives), running the model's state machine over `xs` does not panic and then reports exactly `Spec.<view> N xs`,
+  a function of `lastN N xs` only — no older value contributes, no value of the window is missed.  Before N values the
+  window is "all values so far" (`lastN N xs = xs`).  Scalars: any linearly ordered field ("real arithmetic");
+  `sqrt` is the scalar's own (uninterpreted), so at `ℝ` it is `Real.sqrt`.
 -/
 namespace SF.C02
 open SF
+set_option linter.unusedSectionVars false
 variable {α : Type} [Field α] [LinearOrder α] [IsStrictOrderedRing α] [FloatLike α] [ExactScalar α]
 
 /-- Sma is the arithmetic mean of exactly the N most recent values, from the N-th value on (nothing before) -/
@@ -15,12 +20,55 @@ theorem sma_eq (N : Nat) (hN : 0 < N) (xs : List α) :
     (smaCore (α := α) N).outAfter xs = .ok (Spec.sma N xs) := Sma.outAfter_eq N hN xs
 
 /-- the spec, unfolded: mean of `lastN N xs` once `N` values exist -/
-theorem sma_spec (N : Nat) (hN : 0 < N) (xs : List α) (h : N ≤ xs.length) :
+theorem sma_spec (N : Nat) (xs : List α) (h : N ≤ xs.length) :
     Spec.sma N xs = some (Spec.sumL (Spec.lastN N xs) / (N : α)) := by
   have : ¬ xs.length < N := by omega
   simp [Spec.sma, this, Spec.lastN_length, Nat.min_eq_left h]
 
 theorem sma_spec_none (N : Nat) (xs : List α) (h : xs.length < N) : Spec.sma (α := α) N xs = none := by
   simp [Spec.sma, h]
+
+/-- Cumulative is the sum of exactly the N most recent values (all values so far before that) -/
+theorem cumulative_eq (N : Nat) (hN : 0 < N) (xs : List α) :
+    (cumCore (α := α) N).outAfter xs = .ok (Spec.cumulative N xs) := Cum.outAfter_eq N hN xs
+
+/-- Min / Max are the extrema of exactly the N most recent values -/
+theorem min_eq (N : Nat) (hN : 0 < N) (xs : List α) :
+    (minCoreU (α := α) N).outAfter xs = .ok (Spec.wmin N xs) := MinMax.min_outAfter_eq N hN xs
+theorem max_eq (N : Nat) (hN : 0 < N) (xs : List α) :
+    (maxCoreU (α := α) N).outAfter xs = .ok (Spec.wmax N xs) := MinMax.max_outAfter_eq N hN xs
+
+/-- what "extremum of the window" means: an element of the window below (above) all others -/
+theorem wmin_spec (N : Nat) (xs : List α) (m : α) (h : Spec.wmin N xs = some m) :
+    m ∈ Spec.lastN N xs ∧ ∀ x ∈ Spec.lastN N xs, m ≤ x := MinMax.minL_least _ m h
+theorem wmax_spec (N : Nat) (xs : List α) (m : α) (h : Spec.wmax N xs = some m) :
+    m ∈ Spec.lastN N xs ∧ ∀ x ∈ Spec.lastN N xs, x ≤ m := MinMax.maxL_greatest _ m h
+
+section welford
+variable [Transc α]
+
+/-- WelfordOnline: after any history the accessors `mean()` and `variance()` are the mean and the sample variance of
+exactly the window, and `last()` is the sample standard deviation (nothing before N−1 values) -/
+theorem welford_state (N : Nat) (hN : 0 < N) (xs : List α) :
+    ∃ s, (welfordCoreU (α := α) N).run (welfordCoreU (α := α) N).init xs = .ok s ∧
+      s.mean = Spec.welfordMean N xs ∧ s.variance = Spec.sampleVar (Spec.lastN N xs) := by
+  obtain ⟨s, hs, hi⟩ := Welford.run_ok (α := α) N hN xs
+  exact ⟨s, hs, Welford.mean_eq N s xs hi, Welford.variance_eq N s xs hi⟩
+
+theorem welford_last_eq (N : Nat) (hN : 0 < N) (xs : List α) :
+    (welfordCoreU (α := α) N).outAfter xs = .ok (Spec.welford N xs) := Welford.outAfter_eq N hN xs
+
+/-- Vst = x_t / std and Vsct = (x_t − mean) / std with that same windowed mean and std (x_t resp. 0 when std is 0) -/
+theorem vst_eq (N : Nat) (hN : 0 < N) (xs : List α) :
+    (vstCoreU (α := α) N).outAfter xs = .ok (Spec.vst N xs) := Welford.vst_outAfter_eq N hN xs
+theorem vsct_eq (N : Nat) (hN : 0 < N) (xs : List α) :
+    (vsctCoreU (α := α) N).outAfter xs = .ok (Spec.vsct N xs) := Welford.vsct_outAfter_eq N hN xs
+end welford
+
+/-- the constructors reject exactly `window_len = 0` for Min / Max / WelfordOnline / Vst / Vsct -/
+theorem ctor_reject (α : Type) [Add α] [Sub α] [Mul α] [Div α] [Neg α] [NatCast α] [LT α] [DecidableLT α] [LE α]
+    [DecidableLE α] [BEq α] [FloatLike α] [Transc α] :
+    (∃ e, minCore (α := α) 0 = .error e) ∧ (∃ e, maxCore (α := α) 0 = .error e) ∧ (∃ e, welfordCore (α := α) 0 = .error e) :=
+  ⟨⟨_, rfl⟩, ⟨_, rfl⟩, ⟨_, rfl⟩⟩
 
 end SF.C02
